@@ -452,7 +452,8 @@ func (r *Runtime) arrayproto_splice(call FunctionCall) Value {
 		panic(r.NewTypeError("Invalid array length"))
 	}
 	a := arraySpeciesCreate(o, actualDeleteCount)
-	if src := r.checkStdArrayObj(o); src != nil {
+	// elements are moved and inserted with Set(): an accessor or a read-only element on the prototype chain matters
+	if src := r.checkStdArrayObjWithProto(o); src != nil {
 		if dst := r.checkStdArrayObjWithProto(a); dst != nil {
 			values := make([]Value, actualDeleteCount)
 			copy(values, src.values[actualStart:])
